@@ -6,7 +6,7 @@ PROP = "C02"
 LEVEL = "model_checking"
 
 MINE = {"no_panic", "frame_matches_consumed_bytes", "checksum_gate", "valid_frame_delivered", "result_kind",
-        "independent_of_chunking", "progress"}
+        "independent_of_chunking", "progress", "every_valid_frame_delivered_under_concurrency"}
 
 
 def run(ctx):
@@ -49,6 +49,9 @@ def run(ctx):
     ctx.run_mvh(["gate", "-vectors", ctx.path("gatevec.ndjson"), "-out", trg, "-seed", ctx.seed, "-tier", ctx.tier])
     recs = _stream.validate_streams(ctx, trg, defs=defs, clause_filter=lambda c: c in MINE)
     delivered = 0
+    conc = [r for r in recs if r["e"] == "CONC"]
+    recs = [r for r in recs if r["e"] == "STREAM"]
+    ctx.cov["concurrent_readers_sharing_a_dialect"] = [{"passes": r["passes"], "delivered": r["delivered"], "perr": r["perr"]} for r in conc]
     for r in recs:
         kinds = tuple(x["k"] for x in r["results"])
         delivered += sum(1 for k in kinds if k == "frame")
